@@ -48,11 +48,24 @@ def build_direct(L, recipe, cur_dtype):
 
 
 def dtype_path(recipe):
+    """Precisions the module's filters have been held in, according to the
+    *semantics* of the recorded steps (not to what the module actually holds):
+    construct -> default dtype in force; convert -> its target; deepcopy/pickle
+    -> unchanged; state_dict restart -> a module constructed under the default
+    in force then, converted the same way, loaded with the old values."""
     path = [recipe[0][3]]
+    converted = None
     for st in recipe[1:]:
         if st[0] == "convert":
-            path.append(CONVERT_TARGET[st[1]])
+            converted = CONVERT_TARGET[st[1]]
+            path.append(converted)
+        elif st[0] == "restart" and st[1] == "state_dict":
+            path.append(converted or st[2])
     return path
+
+
+def expected_dtype(recipe):
+    return dtype_path(recipe)[-1]
 
 
 def _run(fn):
@@ -90,7 +103,7 @@ def ref_record(L_unused, rec, how="recipe"):
         recipe = rec["recipe"]
         L = fresh(recipe[0][3])
         oc, mod = _run(lambda: build_from_recipe(L, recipe) if how == "recipe"
-                       else build_direct(L, recipe, rec["mod_dtype"]))
+                       else build_direct(L, recipe, expected_dtype(recipe)))
         if oc != "ok":
             return "raise-in-construct:" + oc, None, []
         return ref_apply(L, rec, mod)
@@ -101,8 +114,8 @@ def ref_record(L_unused, rec, how="recipe"):
             oc, mods = _run(lambda: (build_from_recipe(L, rec["recipe"]),
                                      build_from_recipe(L, rec["recipe2"])))
         else:
-            oc, mods = _run(lambda: (build_direct(L, rec["recipe"], rec["mod_dtype"]),
-                                     build_direct(L, rec["recipe2"], rec["mod_dtype2"])))
+            oc, mods = _run(lambda: (build_direct(L, rec["recipe"], expected_dtype(rec["recipe"])),
+                                     build_direct(L, rec["recipe2"], expected_dtype(rec["recipe2"]))))
         if oc != "ok":
             return "raise-in-construct:" + oc, None, []
         base, x = make_tensor(rec["op"]["arg"])
@@ -328,10 +341,18 @@ def check_c16(w, rec, st):
     if kind not in ("call", "inverse", "roundtrip") or rec.get("faulted"):
         return
     path = dtype_path(rec["recipe"])
-    cur = rec["mod_dtype"]
+    cur = expected_dtype(rec["recipe"])
+    held = [(rec["mod_dtype"], cur)]
     if kind == "roundtrip":
         path = path + ["|"] + dtype_path(rec["recipe2"])
-        cur = "%s/%s" % (rec["mod_dtype"], rec["mod_dtype2"])
+        held.append((rec["mod_dtype2"], expected_dtype(rec["recipe2"])))
+        cur = "%s/%s" % (cur, expected_dtype(rec["recipe2"]))
+    for actual, want in held:
+        if actual is not None and actual != want:
+            w.violation("D2-converted-vs-constructed", rec,
+                        "after the history %s the module should be in %s but holds %s filters"
+                        % (path, want, actual))
+            return
     in_dt = rec["op"]["arg"]["dtype"] if kind != "inverse" else DTNAME.get(rec["pyr"][0][0].dtype)
     # (ii) converted module behaves like one constructed in that precision
     oc, val, leaves = ref_record(None, rec, "direct")
@@ -345,8 +366,8 @@ def check_c16(w, rec, st):
         return
     if oc != "ok":
         return
-    narrowed = _narrowed(rec["recipe"], rec["mod_dtype"]) or (
-        kind == "roundtrip" and _narrowed(rec["recipe2"], rec["mod_dtype2"]))
+    narrowed = _narrowed(rec["recipe"], expected_dtype(rec["recipe"])) or (
+        kind == "roundtrip" and _narrowed(rec["recipe2"], expected_dtype(rec["recipe2"])))
     if narrowed:
         xs = 1.0
         if kind != "inverse":
